@@ -1088,6 +1088,11 @@ pub fn restart(rng: &mut Rng) -> Program {
         let d = *g.rng.pick(&[2u64, 3, 5, 8]);
         a.started.push(SStep::Sleep(d));
     }
+    // one case in eight: started() asks for a restart itself in its first one or two incarnations (an actor that
+    // retries its initialisation): every accepted request is followed by a restart
+    if !via_register && a.strategy != Strategy::NonRestartable && a.started_err_at.is_empty() && g.rng.chance(1, 8) {
+        a.started.push(SStep::CtxRestartUntil(g.rng.range(1, 2) as u32));
+    }
     // one case in six: the actor subscribes to a broker topic in started(), i.e. once per incarnation: whatever the
     // restart strategy does to the actor value, it stays the same subscriber (publications arrive exactly once)
     let subscribes = !via_register && g.rng.chance(1, 6);
@@ -2351,5 +2356,44 @@ pub fn joinrace(rng: &mut Rng) -> Program {
         g.prog.clients[0].push(Op::Await { slot: k, by_ref: true });
         g.prog.clients[0].push(Op::Join { slot: own, cancel: None });
     }
+    g.prog
+}
+
+/// family "svcrestart": a service that the registry itself spawned (from_registry / setup) is restarted from outside
+/// and from its own context: it is an ordinary default-strategy actor (same value, state kept)
+pub fn svcrestart(rng: &mut Rng) -> Program {
+    let mut g = G::new(rng);
+    let k = g.rng.range(1, 2) as u8;
+    let d1 = svc_default(1, g.rng);
+    let d2 = svc_default(2, g.rng);
+    g.prog.defaults = vec![d1, d2];
+    let mut fresh = ActorDecl::plain(50);
+    fresh.k = k;
+    fresh.entry = Entry::Spawn;
+    fresh.at_setup = false;
+    fresh.holders = vec![];
+    g.prog.actors.push(fresh);
+    g.layout(1);
+    let base = g.sk[0].len() as u16;
+    let c = &mut g.prog.clients[0];
+    if g.rng.chance(1, 3) {
+        c.push(Op::Setup { k });
+    }
+    c.push(Op::FromRegistry { k }); // base
+    let n = g.rng.range(1, 3);
+    for _ in 0..n {
+        c.push(Op::Call { slot: base, script: vec![], cancel: None });
+    }
+    for _ in 0..g.rng.range(1, 2) {
+        if g.rng.chance(1, 2) {
+            c.push(Op::Restart { slot: base });
+        } else {
+            c.push(Op::Send { slot: base, script: vec![PStep::CtxRestart], cancel: None });
+        }
+        c.push(Op::Ping { slot: base, cancel: None });
+        c.push(Op::Call { slot: base, script: vec![], cancel: None });
+    }
+    c.push(Op::Sleep(1));
+    c.push(Op::Call { slot: base, script: vec![], cancel: None });
     g.prog
 }
